@@ -748,10 +748,13 @@ class _Method(XML_Method):
     Some magic to bind an JSON-RPC method to an RPC server.
     """
 
-    def __call__(self, *args, **kwargs):
+    def __call__(*args, **kwargs):
         """
         Sends an RPC request and returns the unmarshalled result
         """
+        # 'self' is taken from the positional arguments, so that the remote
+        # method can be given a keyword argument named 'self'
+        self, args = args[0], args[1:]
         if args and kwargs:
             raise ProtocolError(
                 "Cannot use both positional and keyword "
@@ -818,10 +821,13 @@ class MultiCallMethod(object):
         self.notify = notify
         self._config = config
 
-    def __call__(self, *args, **kwargs):
+    def __call__(*args, **kwargs):
         """
         Normalizes call parameters
         """
+        # 'self' is taken from the positional arguments, so that the remote
+        # method can be given a keyword argument named 'self'
+        self, args = args[0], args[1:]
         if kwargs and args:
             raise ProtocolError(
                 "JSON-RPC does not support both "
